@@ -45,7 +45,7 @@ def _case():
 
     scatter = st.fixed_dictionaries(
         {
-            "kind": st.just("scatter"), "width": st.sampled_from([2, 3, 3, 4, 4, 5, 6]), "pre": st.just(1), "inner": st.integers(1, 2),
+            "kind": st.just("scatter"), "width": st.sampled_from([2, 3, 4, 4, 5, 6, 6]), "pre": st.just(1), "inner": st.integers(1, 2),
             "post": st.integers(0, 1), "token": st.just("file"), "ndep": st.sampled_from([1, 1, 2]),
         }
     )
@@ -59,7 +59,7 @@ def _case():
         {
             "shape": st.one_of(scatter, diamond),
             # which siblings fail together (bit mask over the siblings, at least two are forced) and how often
-            "mask": st.one_of(st.sampled_from([3, 7, 15, 31, 63, 5, 10, 21, 42]), st.integers(0, 63)),
+            "mask": st.one_of(st.just(63), st.sampled_from([7, 15, 31, 63, 5, 10, 21, 42]), st.integers(0, 63)),
             "times": st.lists(st.integers(1, 2), min_size=6, max_size=6),
             "later": K.st_plan(max_points=1, max_times=2),
             "schedule": K.st_schedule(),
